@@ -220,7 +220,12 @@ def run(ctx):
             argv = H.strip(call["args"][1])
             first_is_acc = any(H.kind(x) == "Array" and x["es"] and H.path_local(x["es"][0]) == acc for lname, lv in lets.items() if lname == H.path_local(argv) for x in H.walk(lv))
             fin = H.path_local(H.final_expr(ra["body"])["args"][0]) if H.kind(H.final_expr(ra["body"])) == "Call" and H.final_expr(ra["body"])["args"] else None
-            okr = init == ("index", ("param", "args"), ("lit", "2")) and first_is_acc and fin == acc
+            if init is not None and init[0] == "var":
+                # bound by a pattern (e.g. `let [list, func, initial] = args.as_slice()`): resolve through the scoped walk
+                sc_ = scope.sites(ra["body"], lambda n: n is acc_assign[0], env)
+                if sc_:
+                    init = S.norm({"k": "Path", "res": {"local": init[1]}}, sc_[0][1])
+            okr = S.both(S.verdict(init, ("index", ("param", "args"), ("lit", "2"))) if init is not None else None, bool(first_is_acc), fin == acc)
             dr = "accumulator starts as args[2] (%s), is the first callback argument (%s), is reassigned from each result and returned (%s)" % (S.show(init) if init else None, first_is_acc, fin == acc)
     ctx.inst("C13.R3", "builtin#Reduce", okr, dr, H.loc(ra["body"]) if ra else None)
 
